@@ -98,7 +98,6 @@ def run(chk):
     w = C.world_for(chk)
     from . import ctors as _ctors
     _ctors.accessors(chk, w, only=["vaporetto::utils"])
-    _ctors.run(chk, w)
     for rid, txt in (("R14.1", "encode/decode sequences agree"), ("R14.2", "automaton serialize <-> deserialize_unchecked"), ("R14.3", "remainder slice"),
                      ("R14.4", "fixed weight vectors"), ("R07.2", "single bincode configuration (shared with C07)"), ("R14.6", "unsafe witness")):
         chk.rule(rid, txt)
@@ -269,7 +268,8 @@ def rest(chk, w):
             okfrom = any(e[0] == "call" and "WeightVector as core::convert::From<alloc::vec::Vec>>::from" in (e[2] or "") for e in o.trace)
     chk.ob("R14.4", "decode-through-From<Vec<i32>>", okfrom, "WeightVector::decode does not build the value through From<Vec<i32>> (which zero-fills fixed vectors)", site=C.site(bd))
     # ---- R14.5 / R14.6
-    c07.r072(chk, w)
+    with chk.only(rules={"R07.2"}, keys=lambda k: "model::Model" not in k):   # the model file is C07's business
+        c07.r072(chk, w)
     if chk.config == "W":
         witness.check(chk, "R14.6", "W146UnsafeDeserialize", 1, 1, "Predictor::deserialize_from_slice_unchecked must be an unsafe fn (E0133)")
 
